@@ -142,3 +142,28 @@ def hex_or_not_str(ctx, name, minlen=0, maxlen=None):
     s = Seq('str', [g])
     ctx.inputs[name] = s
     return s, H
+
+
+def field_obligations(ip, ctx, base, ob, os_, prop_level=True):
+    """code outcome is an object, spec outcome a dict of expected attributes: one obligation per field"""
+    from pyvc.sym import Obj, PyDict
+    if ob[0] == "ret" and os_[0] == "ret" and isinstance(ob[1], Obj) and isinstance(os_[1], PyDict):
+        out = []
+        for k, v in os_[1].d.items():
+            if k not in ob[1].attrs:
+                out.append(Obligation(f"{base}/{k}", ctx, False, note="attribute missing", prop_level=prop_level))
+            else:
+                out.append(Obligation(f"{base}/{k}", ctx, deep_equals(ip, ob[1].attrs[k], v, ctx), prop_level=prop_level))
+        return out
+    return equiv_obligations(ip, ctx, base, ob, os_, prop_level=prop_level)
+
+
+def real_enum(modname, name):
+    return getattr(P().real[modname], name)
+
+
+def cls(qualname):
+    c = P().cls(qualname)
+    if c is None:
+        raise Unsupported(f"class {qualname} not found in the current source")
+    return c
